@@ -506,6 +506,9 @@ def run(env) -> Result:
     return res
 
 
+REPLAY_EXACT = True  # the recorded definition set is re-evaluated directly
+
+
 def replay(body) -> int:
     m = impl.dc()
     from dissect.cstruct.tools import stubgen as sg
